@@ -586,6 +586,61 @@ func (c *Ctx) ruleSettingsGuards() {
 	}
 	check("nodeConfig.ljc", true)
 	check("nodeConfig.sym", false)
+	// completeness for the symbol: (*stack).setSymbol reaches the store on every path of a non-LIST
+	// stack - also for an empty string, which is how a symbol is removed
+	if fn := c.p.ByName["(*stack).setSymbol"]; fn != nil {
+		fa := c.eng.analyze(fn, nil)
+		listK, _ := c.p.constVal("list")
+		stores := c.findCalls(fn, "(*nodeConfig).setSymbol")
+		var problems []string
+		if len(stores) == 0 {
+			problems = append(problems, "the configuration's setSymbol is not called")
+		}
+		for _, rs := range fa.rets {
+			if rs.st.dead {
+				continue
+			}
+			did := false
+			for _, sc := range stores {
+				if _, d := rs.st.cep[sc]; d {
+					did = true
+				}
+			}
+			if did {
+				continue
+			}
+			isList := false
+			for _, b := range fn.Blocks {
+				for _, in := range b.Instrs {
+					bo, ok := in.(*ssa.BinOp)
+					if !ok || (bo.Op != token.EQL && bo.Op != token.NEQ) {
+						continue
+					}
+					k, okc := constIntOf(bo.Y)
+					if !okc || k != listK {
+						continue
+					}
+					ss := srcSet{}
+					c.sources(fn, bo.X, 0, map[ssa.Value]bool{}, ss)
+					if !ss["field:nodeConfig.typ"] {
+						continue
+					}
+					if v, known := fa.knownTerm(rs.st, aTR, fa.term(rs.st, bo)); known && v == (bo.Op == token.EQL) {
+						isList = true
+					}
+				}
+			}
+			if !isList {
+				problems = append(problems, "a path leaves the symbol as it was although the stack is not known to be a LIST (an explicit empty string must clear the symbol)")
+			}
+		}
+		if len(problems) == 0 {
+			rep.ok("R-KINDGUARD", "(*stack).setSymbol", "stores whenever not LIST", c.p.pos(fn.Pos()), "only a LIST stack keeps its symbol slot untouched")
+		} else {
+			sort.Strings(problems)
+			rep.bad("R-KINDGUARD", "(*stack).setSymbol", "stores whenever not LIST", c.p.pos(fn.Pos()), strings.Join(uniq(problems), "; "))
+		}
+	}
 	// enc: appended only when no duplicate was found
 	n := 0
 	for _, fn := range c.p.Funcs {
